@@ -16,23 +16,67 @@ structure MsgFine (b : Buf) (m : PSIPMsg) : Prop where
   pv : HvFine b m.pv
   body : m.body.inside b.size
 
+/-- every field of the header values lies before the offset `o` -/
+structure HvIn (b : Buf) (o : Nat) (hv : PHdrVals) : Prop where
+  from_ : NaOut b o hv.from_
+  to : NaOut b o hv.to
+  callid : hv.callid.callID.inside o
+  cseq : hv.cseq.cseq.inside o ∧ hv.cseq.method.inside o ∧ hv.cseq.v.inside o
+  clen : hv.clen.sVal.inside o
+  expires : hv.expires.sVal.inside o
+  contacts : CtIn b o hv.contacts
+  pais : PaIn b o hv.pais
+
+theorem NaEntry.naOut {b : Buf} {o : Nat} {pf : PFromBody} (h : NaEntry b o pf) : NaOut b o pf := by
+  rcases h with h | h
+  · exact h.2
+  · have := h.2.out
+    exact ⟨this.ho, this.name, this.uri, this.tag, this.params, this.v, this.pnc⟩
+
+theorem HvSafe.inn {b : Buf} {o : Nat} {st : HState} {hv : PHdrVals} (h : HvSafe b o st hv) : HvIn b o hv :=
+  ⟨h.from_.naOut, h.to.naOut, h.callid.fld, ⟨h.cseq.cseq, h.cseq.method, h.cseq.v⟩, h.clen.fld, h.expires.fld,
+   h.ctIn, h.paIn⟩
+
+theorem HvIn.mono {b : Buf} {o o' : Nat} {hv : PHdrVals} (h : HvIn b o hv) (h1 : o ≤ o') (h2 : o' ≤ b.size) :
+    HvIn b o' hv :=
+  ⟨h.from_.mono h1 h2, h.to.mono h1 h2, PField.inside_mono h.callid h1,
+   ⟨PField.inside_mono h.cseq.1 h1, PField.inside_mono h.cseq.2.1 h1, PField.inside_mono h.cseq.2.2 h1⟩,
+   PField.inside_mono h.clen h1, PField.inside_mono h.expires h1, h.contacts.mono h1 h2, h.pais.mono h1 h2⟩
+
+theorem HvIn.grow {b b' : Buf} {o : Nat} {hv : PHdrVals} (h : HvIn b o hv) (hs : b.size ≤ b'.size) : HvIn b' o hv :=
+  ⟨h.from_.grow hs, h.to.grow hs, h.callid, h.cseq, h.clen, h.expires, h.contacts.grow hs, h.pais.grow hs⟩
+
+/-- **every reported field lies before the offset `o`** (first line, stored headers, shortcuts, header values) -/
+structure MsgRelIn (b : Buf) (o : Nat) (m : PSIPMsg) : Prop where
+  fl : FlSafe b o m.fl
+  hl : HlsIn o m.hl
+  pv : HvIn b o m.pv
+
+theorem MsgRelIn.mono {b : Buf} {o o' : Nat} {m : PSIPMsg} (h : MsgRelIn b o m) (h1 : o ≤ o') (h2 : o' ≤ b.size) :
+    MsgRelIn b o' m := ⟨h.fl.mono h1 h2, h.hl.mono h1, h.pv.mono h1 h2⟩
+
+theorem MsgRelIn.grow {b b' : Buf} {o : Nat} {m : PSIPMsg} (h : MsgRelIn b o m) (hs : b.size ≤ b'.size) :
+    MsgRelIn b' o m := ⟨h.fl.grow hs, h.hl, h.pv.grow hs⟩
+
 /-- legitimacy of a message object for panic-freedom -/
 structure MsgSafe (b : Buf) (o : Nat) (m : PSIPMsg) : Prop extends MsgFine b m where
   ho : o ≤ b.size
   offs : m.state ≠ .init → m.offs ≤ o
   flS : (m.state = .init ∨ m.state = .fline) → FlSafe b o m.fl
   hls : (m.state = .init ∨ m.state = .fline ∨ m.state = .headers) → HlsSafe b o m.hl (some m.pv)
+  inn : MsgRelIn b o m
 
 theorem MsgFine.grow {b b' : Buf} {m : PSIPMsg} (h : MsgFine b m) (hs : b.size ≤ b'.size) : MsgFine b' m :=
   ⟨h.pnc, (h.fl.grow hs).mono hs (Nat.le_refl _), h.hl.grow hs, h.pv.grow hs, PField.inside_mono h.body hs⟩
 
 theorem MsgSafe.grow {b b' : Buf} {o : Nat} {m : PSIPMsg} (h : MsgSafe b o m) (hs : b.size ≤ b'.size) :
     MsgSafe b' o m :=
-  ⟨h.toMsgFine.grow hs, by have := h.ho; omega, h.offs, fun hh => (h.flS hh).grow hs, fun hh => (h.hls hh).grow hs⟩
+  ⟨h.toMsgFine.grow hs, by have := h.ho; omega, h.offs, fun hh => (h.flS hh).grow hs, fun hh => (h.hls hh).grow hs,
+   h.inn.grow hs⟩
 
 theorem HlsSafe.mono {b : Buf} {o o' : Nat} {hl : HdrLst} {hb : Option PHdrVals} (h : HlsSafe b o hl hb)
     (h1 : o ≤ o') (h2 : o' ≤ b.size) : HlsSafe b o' hl hb :=
-  ⟨h.cur.mono h1 h2, h.clean, h.stored, h.hF⟩
+  ⟨h.cur.mono h1 h2, h.clean, h.stored, h.hF, h.inn.mono h1⟩
 
 /-- what a call guarantees about its result -/
 structure MsgT (b : Buf) (o : Nat) (r : Nat × Err × PSIPMsg) : Prop where
@@ -40,6 +84,7 @@ structure MsgT (b : Buf) (o : Nat) (r : Nat × Err × PSIPMsg) : Prop where
   le : r.1 ≤ b.size
   ge : r.2.1 = .ok ∨ r.2.1 = .moreBytes → o ≤ r.1
   more : r.2.1 = .moreBytes → MsgSafe b r.1 r.2.2
+  inn : r.2.1 = .ok → MsgRelIn b r.1 r.2.2 ∧ r.2.2.body.inside r.1
 
 theorem msgErr_T (b : Buf) (o o' : Nat) (m : PSIPMsg) (e : Err) (flags : Nat) (hO : MsgFine b m) (hle : o' ≤ b.size)
     (hne : e ≠ .ok) (hge : e = .moreBytes → o ≤ o') (hS : e = .moreBytes → MsgSafe b o' m) :
@@ -50,24 +95,29 @@ theorem msgErr_T (b : Buf) (o o' : Nat) (m : PSIPMsg) (e : Err) (flags : Nat) (h
   · rename_i h1
     have : e ≠ .moreBytes := by simpa using h1
     exact ⟨hO', hle, (fun hh => by rcases hh with hh | hh; exact absurd hh hne; exact absurd hh this),
-      (fun hh => absurd hh this)⟩
+      (fun hh => absurd hh this), (fun hh => absurd hh hne)⟩
   · rename_i h1
     have he : e = .moreBytes := by simpa using h1
     split
-    · exact ⟨hO', hle, (fun hh => by rcases hh with hh | hh <;> cases hh), (fun hh => by cases hh)⟩
-    · exact ⟨hO, hle, (fun _ => hge he), (fun _ => hS he)⟩
+    · exact ⟨hO', hle, (fun hh => by rcases hh with hh | hh <;> cases hh), (fun hh => by cases hh),
+        (fun hh => by cases hh)⟩
+    · exact ⟨hO, hle, (fun _ => hge he), (fun _ => hS he), (fun hh => absurd hh hne)⟩
 
 theorem msgEnd_T (b : Buf) (o o' : Nat) (m : PSIPMsg) (hO : MsgFine b m) (hoo : o ≤ o') (hle : o' ≤ b.size)
-    (hb : m.body.offs ≤ o') (hoffs : m.offs ≤ o') : MsgT b o (msgEnd m b o') := by
+    (hb : m.body.offs ≤ o') (hoffs : m.offs ≤ o') (hI : MsgRelIn b o' m) : MsgT b o (msgEnd m b o') := by
   unfold msgEnd PSIPMsg.setBufs
-  refine ⟨⟨?_, hO.fl, hO.hl, hO.pv, extend_inside m.body o' b.size hb hle⟩, hle, (fun _ => hoo), (fun hh => by cases hh)⟩
+  refine ⟨⟨?_, hO.fl, hO.hl, hO.pv, extend_inside m.body o' b.size hb hle⟩, hle, (fun _ => hoo), (fun hh => by cases hh),
+    (fun _ => ⟨⟨hI.fl, hI.hl, hI.pv⟩, extend_inside m.body o' o' hb (Nat.le_refl _)⟩)⟩
   show (((m.pnc || m.body.extendPanics o') || decide (o' > b.size)) || decide (m.offs > o')) = false
   rw [hO.pnc, extendPanics_false m.body o' hb]
   simp only [Bool.or_self, Bool.false_or, Bool.or_eq_false_iff, decide_eq_false_iff_not, Nat.not_lt, gt_iff_lt]
   exact ⟨hle, hoffs⟩
 
 theorem msgBody_T (b : Buf) (o : Nat) (m : PSIPMsg) (flags : Nat) (hO : MsgFine b m) (ho : o ≤ b.size)
-    (hoffs : m.offs ≤ o) (hst : m.state = .body) : MsgT b o (msgBody b o m flags) := by
+    (hoffs : m.offs ≤ o) (hst : m.state = .body) (hI : MsgRelIn b o m) : MsgT b o (msgBody b o m flags) := by
+  have hI1 : ∀ n, o ≤ n → n ≤ b.size → MsgRelIn b n { m with body := PField.set o o } :=
+    fun n h1 h2 => ⟨hI.fl.mono h1 h2, hI.hl.mono h1, hI.pv.mono h1 h2⟩
+  have hI2 : MsgRelIn b o { m with body := PField.set o o, state := .fin } := ⟨hI.fl, hI.hl, hI.pv⟩
   have hset : (PField.set o o).offs ≤ o := by unfold PField.set trunc16; exact Nat.mod_le _ _
   have hins : (PField.set o o).inside b.size := set_inside o o b.size (Nat.le_refl _) ho
   have hO1 : MsgFine b { m with body := PField.set o o } := ⟨hO.pnc, hO.fl, hO.hl, hO.pv, hins⟩
@@ -77,28 +127,32 @@ theorem msgBody_T (b : Buf) (o : Nat) (m : PSIPMsg) (flags : Nat) (hO : MsgFine 
   split
   · split
     · refine ⟨⟨?_, hO.fl, hO.hl, hO.pv, hins⟩, ho, (fun hh => by rcases hh with hh | hh <;> cases hh),
-        (fun hh => by cases hh)⟩
+        (fun hh => by cases hh), (fun hh => by cases hh)⟩
       show ((m.pnc || decide (o > b.size)) || decide (m.offs > o)) = false
       rw [hO.pnc]
       simp only [Bool.false_or, Bool.or_eq_false_iff, decide_eq_false_iff_not, Nat.not_lt, gt_iff_lt]
       exact ⟨ho, hoffs⟩
-    · exact msgEnd_T b o o _ hO2 (Nat.le_refl _) ho hset hoffs
+    · exact msgEnd_T b o o _ hO2 (Nat.le_refl _) ho hset hoffs hI2
   · split
     · split
       · split
         · exact msgEnd_T b o b.size _ hO1 ho (Nat.le_refl _) (by show (PField.set o o).offs ≤ b.size; omega) (by show m.offs ≤ b.size; omega)
+            (hI1 _ ho (Nat.le_refl _))
         · exact ⟨hO1, ho, (fun _ => Nat.le_refl _), fun _ =>
             ⟨hO1, ho, (fun _ => hoffs), (fun hh => by rcases hh with hh | hh <;> (rw [hst] at hh; cases hh)),
-             (fun hh => by rcases hh with hh | hh | hh <;> (rw [hst] at hh; cases hh))⟩⟩
+             (fun hh => by rcases hh with hh | hh | hh <;> (rw [hst] at hh; cases hh)), hI1 o (Nat.le_refl _) ho⟩,
+            (fun hh => by cases hh)⟩
       · rename_i hfit
         exact msgEnd_T b o _ _ hO1 (Nat.le_add_right _ _) (by show o + m.pv.clen.uiVal ≤ b.size; omega)
           (by show (PField.set o o).offs ≤ _; omega) (by show m.offs ≤ _; omega)
+          (hI1 _ (Nat.le_add_right _ _) (by show o + m.pv.clen.uiVal ≤ b.size; omega))
     · split
-      · exact msgEnd_T b o o _ hO1 (Nat.le_refl _) ho hset hoffs
+      · exact msgEnd_T b o o _ hO1 (Nat.le_refl _) ho hset hoffs (hI1 o (Nat.le_refl _) ho)
       · exact msgEnd_T b o b.size _ hO1 ho (Nat.le_refl _) (by show (PField.set o o).offs ≤ b.size; omega) (by show m.offs ≤ b.size; omega)
+          (hI1 _ ho (Nat.le_refl _))
 
 theorem MsgT.weaken {b : Buf} {o o1 : Nat} {r : Nat × Err × PSIPMsg} (h : MsgT b o1 r) (h1 : o ≤ o1) : MsgT b o r :=
-  ⟨h.out, h.le, fun hh => by have := h.ge hh; omega, h.more⟩
+  ⟨h.out, h.le, (fun hh => by have := h.ge hh; omega), h.more, h.inn⟩
 
 theorem msgHeaders_T (b : Buf) (o : Nat) (m : PSIPMsg) (flags : Nat) (hfit : b.size ≤ 65535)
     (hst : m.state = .headers) (hok : msgOK2 b o m) (H : MsgSafe b o m) : MsgT b o (msgHeaders b o m flags) := by
@@ -123,13 +177,16 @@ theorem msgHeaders_T (b : Buf) (o : Nat) (m : PSIPMsg) (flags : Nat) (hfit : b.s
       have h1 := hR (Or.inr (hmb hh))
       exact ⟨hfine, hN, (fun _ => by show m.offs ≤ o1; omega),
         (fun hq => by rcases hq with hq | hq <;> (rw [show ({ m with hl := hl1, pv := pv1 } : PSIPMsg).state = m.state from rfl, hst] at hq; cases hq)),
-        (fun _ => hM (hmb hh))⟩
+        (fun _ => hM (Or.inl (hmb hh))),
+        ⟨H.inn.fl.mono (by omega) hN, (hM (Or.inl (hmb hh))).inn, ((hM (Or.inl (hmb hh))).cur.hv pv1 rfl).inn⟩⟩
     unfold afterHeaders
     cases e1 <;> simp only [Option.getD_some]
     case ok =>
       have h1 := hR (Or.inl rfl)
       have hfineB : MsgFine b { m with hl := hl1, pv := pv1, state := .body } := ⟨H.pnc, H.fl, hO, hV pv1 rfl, H.body⟩
-      exact (msgBody_T b o1 _ flags hfineB hN (by show m.offs ≤ o1; omega) rfl).weaken h1.1
+      have hHS := hM (Or.inr rfl)
+      exact (msgBody_T b o1 _ flags hfineB hN (by show m.offs ≤ o1; omega) rfl
+        ⟨H.inn.fl.mono h1.1 hN, hHS.inn, (hHS.cur.hv pv1 rfl).inn⟩).weaken h1.1
     all_goals exact herr _ (by decide) (fun hh => by first | exact hh | cases hh)
 
 theorem msgFLine_T (b : Buf) (o : Nat) (m : PSIPMsg) (flags : Nat) (hfit : b.size ≤ 65535)
@@ -148,13 +205,15 @@ theorem msgFLine_T (b : Buf) (o : Nat) (m : PSIPMsg) (flags : Nat) (hfit : b.siz
   have herr : ∀ e : Err, e ≠ .ok → MsgT b o (msgErr { m with fl := fl1 } o1 e flags) := by
     intro e hne
     refine msgErr_T b o o1 _ e flags hfine hF.ho hne (fun _ => hge) (fun _ => ?_)
-    exact ⟨hfine, hF.ho, (fun _ => by show m.offs ≤ o1; omega), (fun _ => hF), (fun _ => hHls)⟩
+    exact ⟨hfine, hF.ho, (fun _ => by show m.offs ≤ o1; omega), (fun _ => hF), (fun _ => hHls),
+      ⟨hF, H.inn.hl.mono hge, H.inn.pv.mono hge hF.ho⟩⟩
   cases e1 <;> simp only
   case ok =>
     refine (msgHeaders_T b o1 _ flags hfit rfl ?_ ?_).weaken hge
     · exact ⟨hF.ho, (fun hh => by rcases hh with hh | hh <;> cases hh), fun _ => ⟨hls, hvOK_mono hvs hge hF.ho, hpe⟩⟩
     · exact ⟨⟨H.pnc, hF.mono hF.ho (Nat.le_refl _), H.hl, H.pv, H.body⟩, hF.ho, (fun _ => by show m.offs ≤ o1; omega),
-        (fun hh => by rcases hh with hh | hh <;> cases hh), (fun _ => hHls)⟩
+        (fun hh => by rcases hh with hh | hh <;> cases hh), (fun _ => hHls),
+        ⟨hF, H.inn.hl.mono hge, H.inn.pv.mono hge hF.ho⟩⟩
   all_goals exact herr _ (by decide)
 
 /-- **ParseSIPMsg never panics** (buffers up to the documented 65,535-byte limit; every flag combination; any
@@ -171,12 +230,12 @@ theorem parseSIPMsg_safe (b : Buf) (o : Nat) (m : PSIPMsg) (flags : Nat) (hfit :
     exact msgFLine_T b o _ flags hfit rfl
       ⟨hok.1, fun _ => hok.2.1 (Or.inl hst), fun _ => hok.2.2 (by rw [hst]; decide)⟩
       ⟨⟨H.pnc, H.fl, H.hl, H.pv, H.body⟩, H.ho, (fun _ => Nat.le_refl _), (fun _ => H.flS (Or.inl hst)),
-        (fun _ => H.hls (Or.inl hst))⟩
+        (fun _ => H.hls (Or.inl hst)), ⟨H.inn.fl, H.inn.hl, H.inn.pv⟩⟩
   case fline => rw [parseSIPMsg_fline b o m flags hst]; exact msgFLine_T b o m flags hfit hst hok H
   case headers => rw [parseSIPMsg_headers b o m flags hst]; exact msgHeaders_T b o m flags hfit hst hok H
   case body =>
     rw [parseSIPMsg_body b o m flags hst]
-    exact msgBody_T b o m flags H.toMsgFine H.ho (H.offs (by rw [hst]; decide)) hst
+    exact msgBody_T b o m flags H.toMsgFine H.ho (H.offs (by rw [hst]; decide)) hst H.inn
   all_goals
     (have : parseSIPMsg b o m flags = msgErr m o .bug flags := by unfold parseSIPMsg; rw [hst]
      rw [this]
@@ -194,13 +253,18 @@ theorem HlsSafe_new (b : Buf) (o : Nat) (ho : o ≤ b.size) (k kc : Nat) :
     split
     · rename_i hin; exact hrep _ hin
     · rfl
-  refine ⟨?_, ⟨fun j _ hj => hrep j hj, fun _ => rfl⟩, (fun j hj _ => by cases hj), fun j hj => ?_⟩
+  refine ⟨?_, ⟨fun j _ hj => hrep j hj, fun _ => rfl⟩, (fun j hj _ => by cases hj), (fun j hj => ?_),
+    ⟨(fun j hj _ => by cases hj), fun j hj => ?_⟩⟩
   · rw [hcur]
     exact HlSafe_new b o _ ho (fun hv hh => by cases hh; exact HvSafe_new b o ho kc)
   · have hj' : j < 13 := by simpa using hj
     have : (Array.replicate 13 ({} : Hdr))[j]! = {} := by simp [hj']
     show HdrFine b (Array.replicate 13 ({} : Hdr))[j]!
     rw [this]; exact HdrFine_new b
+  · have hj' : j < 13 := by simpa using hj
+    have : (Array.replicate 13 ({} : Hdr))[j]! = {} := by simp [hj']
+    show HdrBefore o (Array.replicate 13 ({} : Hdr))[j]!
+    rw [this]; exact HdrBefore_new o
 
 /-- what `Init` builds (header array of capacity `k`, contact array of capacity `k'`) -/
 def initObj (len k k' : Nat) : PSIPMsg :=
@@ -213,7 +277,8 @@ theorem MsgSafe_init (b : Buf) (o : Nat) (ho : o ≤ b.size) (m : PSIPMsg) (len 
     intro k k'
     have hS := HlsSafe_new b o ho k k'
     exact ⟨⟨rfl, FlSafe_new b b.size (Nat.le_refl _), hS.out, (HvSafe_new b o ho k').fine, PField.inside_zero _⟩, ho,
-      (fun hh => absurd rfl hh), (fun _ => FlSafe_new b o ho), (fun _ => hS)⟩
+      (fun hh => absurd rfl hh), (fun _ => FlSafe_new b o ho), (fun _ => hS),
+      ⟨FlSafe_new b o ho, hS.inn, (HvSafe_new b o ho k').inn⟩⟩
   cases hdrs <;> cases cts
   · exact key 10 10
   · exact key 10 kc
